@@ -28,6 +28,8 @@ import (
 //	final-zerokey  a server-final computed with an all-zero salted password over this exchange's
 //	               messages (what an attacker can compute if the client's key derivation
 //	               degenerates)
+//	final-emptypw  a server-final computed with the salted EMPTY password over this exchange's
+//	               messages (valid only for a client whose password is empty)
 //	final-blank    the server-final "v=" with an empty verifier
 //	final-other    a well-formed server-final computed with another key
 //	final-empty    a server-final computed over empty client state (no salted password, no
@@ -268,6 +270,15 @@ func (ad *adversary) Step(resp []byte, has bool) StepOut {
 			_, _, sk := ScramKeys(ad.h, "some-other-password", ad.a.Salt, ad.iter())
 			msg = "v=" + base64.StdEncoding.EncodeToString(hm(ad.h, sk, []byte(ad.bare+","+ad.first+","+ad.final)))
 		}
+	case "final-emptypw":
+		// the server-final an impostor can compute who assumes that the client's key derivation
+		// ran over the empty password (salt and iteration count are the impostor's own)
+		_, _, sk := ScramKeys(ad.h, "", ad.a.Salt, ad.iter())
+		first := ad.first
+		if first == "" {
+			first = ad.iter0First
+		}
+		msg = "v=" + base64.StdEncoding.EncodeToString(hm(ad.h, sk, []byte(ad.bare+","+first+","+ad.lastFinal)))
 	case "final-blank":
 		msg = "v="
 	case "final-other":
